@@ -210,13 +210,13 @@ def check(conds, timeout_ms=3000, want_model=False, external=False):
     # deterministic resource limit (verdicts must not flip with machine load); the
     # wall-clock timeout is only a safety net
     s.set('rlimit', int(timeout_ms) * 400)
-    s.set('timeout', int(timeout_ms) * 5)
+    s.set('timeout', int(timeout_ms) * 15)
     for f in cv.side + fs:
         s.add(f)
     import threading
     # z3 does not always honour its own limits (integer cuts with large coefficients):
     # interrupt it from a watchdog thread
-    wd = threading.Timer(max(2.0, timeout_ms * 6 / 1000.0), s.ctx.interrupt)
+    wd = threading.Timer(max(6.0, timeout_ms * 18 / 1000.0), s.ctx.interrupt)
     wd.daemon = True
     wd.start()
     try:
